@@ -19,6 +19,7 @@
 #include "util/file_piece.hh"
 #include "util/file.hh"
 #include "util/read_compressed.hh"
+#include "util/tokenize_piece.hh"
 
 #include <csignal>
 #include <cstdio>
@@ -264,6 +265,27 @@ void case_rc(std::istringstream &in, std::ostream &o) {
   g_fd = -1;
   if (p[1] >= 0) close(p[1]);
 }
+// TK <B|S|A> <hex>: util::TokenIter over the bytes: B BoolCharacter(kSpaces) skipping empty tokens, S SingleCharacter(' ')
+// keeping them, A AnyCharacter(" \t") skipping empty tokens; answer: the tokens, '|' separated, each as bytes
+template <class It> void dump_tokens(It it, std::ostream &o) {
+  bool first = true;
+  for (; it; ++it) {
+    if (!first) o << '|';
+    first = false;
+    put_bytes(o, it->data(), it->size());
+  }
+  if (first) o << "none";
+}
+void case_tk(std::istringstream &in, std::ostream &o) {
+  std::string mode, hex;
+  in >> mode >> hex;
+  std::string data = unhex(hex);
+  StringPiece sp(data.data(), data.size());     // data() is never NULL for std::string
+  if (mode == "B") dump_tokens(util::TokenIter<util::BoolCharacter, true>(sp, util::kSpaces), o);
+  else if (mode == "S") dump_tokens(util::TokenIter<util::SingleCharacter, false>(sp, ' '), o);
+  else if (mode == "A") dump_tokens(util::TokenIter<util::AnyCharacter, true>(sp, " \t"), o);
+  else o << "BADMODE";
+}
 } // namespace
 
 int main() {
@@ -276,6 +298,7 @@ int main() {
     in >> cmd;
     if (cmd == "FP") case_fp(in, o);
     else if (cmd == "RC") case_rc(in, o);
+    else if (cmd == "TK") case_tk(in, o);
     else o << "BADCMD";
     std::cout << o.str() << '\n';
     std::cout.flush();
